@@ -1,11 +1,11 @@
 #!/usr/bin/env python3
 import json,sys,os,glob
-for d in sorted(glob.glob('/tmp/mut/C*/m*')):
+for d in sorted(glob.glob((sys.argv[1] if len(sys.argv)>1 else '/tmp/mut')+'/C*/m[0-9]*')):
     if not os.path.exists(d+'/eval.json'): 
-        print(d[9:], 'pending'); continue
+        print(d.split('/',3)[3], 'pending'); continue
     r=json.load(open(d+'/eval.json'))['results']
     c=[k for k,v in r.items() if v['exit']==1]; bad=[k for k,v in r.items() if v['exit'] not in (0,1)]
     cf=json.load(open(d+'/confirm.json')) if os.path.exists(d+'/confirm.json') else {}
-    own=d[9:12]
+    own=d.split('/')[3]
     flag='' if own in c else 'MISSED'
-    print(d[9:], 'n=%d'%len(r), 'caught:',','.join(c) or '-', ('INFRA:'+','.join(bad)) if bad else '', flag, 'confirm:', ' '.join('%s'%(cf[k]) for k in ['suite_exit','demo_with_patch_exit','demo_without_patch_exit'] if k in cf))
+    print(d.split('/',3)[3], 'n=%d'%len(r), 'caught:',','.join(c) or '-', ('INFRA:'+','.join(bad)) if bad else '', flag, 'confirm:', ' '.join('%s'%(cf[k]) for k in ['suite_exit','demo_with_patch_exit','demo_without_patch_exit'] if k in cf))
